@@ -333,6 +333,14 @@ Print Assumptions c14_platform_is_source.
    by symbolic execution of minidump-processor/src/processor.rs on every run (Gen/C14Process.v). *)
 Theorem c14_process_state_is_source : forall d : dump,
   (forall i t req, one_thread d i t req = gen_one_thread d i t req) /\
+  (* the whole `.iter().enumerate().map(closure).collect()` with the captured requesting_thread *)
+  (forall ts i req, walk_threads d i ts req =
+     (fix go (i : nat) (ts : list thread) (req : option nat) : list callstack * option nat :=
+        match ts with
+        | [] => ([], req)
+        | t :: rest => let '(cs, req1) := gen_one_thread d i t req in
+                       let '(css, req2) := go (S i) rest req1 in (cs :: css, req2)
+        end) i ts req) /\
   process_id d = gen_process_id d /\ process_create_time d = gen_process_create_time d /\
   (forall mems t f, choose_stack mems t f = gen_choose_stack mems t f) /\
   (forall mems t, thread_stack mems t = gen_thread_stack mems t) /\
@@ -340,7 +348,7 @@ Theorem c14_process_state_is_source : forall d : dump,
   (forall lines, pid_of_lines lines =
                  pid_of_lines_with GEN_STATUS_SEP GEN_STATUS_KEY GEN_STATUS_ABSENT GEN_STATUS_UNPARSEABLE lines).
 Proof.
-  intro d. split; [intros; apply one_thread_is_source|]. split; [apply pid_time_is_source|].
+  intro d. split; [intros; apply one_thread_is_source|]. split; [apply walk_threads_is_source|]. split; [apply pid_time_is_source|].
   split; [apply pid_time_is_source|]. split; [intros; apply choose_stack_is_source|]. split; [intros; apply thread_stack_is_source|exact status_consts_are_source].
 Qed.
 Print Assumptions c14_process_state_is_source.
